@@ -131,6 +131,19 @@ func runC07(r *Run) {
 		}
 		slots = append(slots, sp)
 	}
+	for _, sp := range slots {
+		for _, cp := range sp.conns {
+			if cp.wAction == 3 && r.y != nil {
+				// a CloseNow racing with frame writers is only interesting if the
+				// writers can be parked inside writeFrame while it happens
+				r.y.enabled["wf.armed"] = true
+				r.y.enabled["wf.written"] = true
+				if r.y.pct < 40 {
+					r.y.pct = 40
+				}
+			}
+		}
+	}
 	r.D("plan", desc)
 	r.Class = fmt.Sprintf("slots%d", nSlots)
 	r.Nontrivial = true
@@ -358,6 +371,19 @@ func runC07(r *Run) {
 								r.S.Park("a." + who + ".closer")
 							}
 							c.CloseNow()
+							// ... and dials a new connection at once, while the old one's
+							// writers may still be on their way out of the library
+							id2 := 32 + cp.id
+							c07RunConn(r, fmt.Sprintf("%s.redial%d", who, cp.id), id2, RawOpts{LibClient: cp.o.LibClient}, func(rc2 *rawConn) {
+								for i := 0; i < 3; i++ {
+									if err := rc2.C.Write(bg, websocket.MessageBinary, tagged(id2, 1, i, 3000+i)); err != nil {
+										r.Violate("write-error", "write", "conn %d (dialed right after connection %d was closed): write %d failed: %v", id2, cp.id, i, err)
+										return
+									}
+									r.S.Park("a." + who + ".redial")
+								}
+								rc2.C.Close(websocket.StatusNormalClosure, fmt.Sprintf("conn%d", id2))
+							})
 						})
 						nmsg := 0
 						for i := 0; i < 6; i++ {
